@@ -29,6 +29,10 @@ def reader_population(n, seed, ndims=(2, 3), payloads=("random", "special", "ext
         if i % 16 == 13:      # scale: 100+ one-cell boxes at level 0, all in one file / spread over 40 files
             g.update(bf=1, maxsz=1, base_blocks=(10, 12) if nd == 2 else (5, 5), nlevels=min(nl, 2),
                      nfiles=[1, 40][(i // 16) % 2], nfields=min(g["nfields"], 3))
+        if i % 16 == 3:       # six-digit binary file numbers (Cell_D_100007: what a level with 100000+ files has)
+            g["file_id_base"] = 100000
+        if i % 16 == 11:      # the same geometry in micrometres / nanometres (tiny cells in absolute terms)
+            g["length_scale"] = [1e-6, 1e-9][(i // 16) % 2]
         if i % 16 == 5:       # far from the origin: coordinate / cell size of 1e5 .. 1e7
             g["origin"] = [rng.choice([1.0e5, -3.0e5, 2.5e6]) for _ in range(nd)]
         if i % 16 == 9 and max_fields >= 8:      # as many fields as real output has; 3-digit component counts
